@@ -133,7 +133,10 @@ def check_pmtree(ctx, fb):
     for p in paths:
         if p.kind != "backedge":
             continue
-        sv = carried_value(it, p, "set_values")
+        # the value buffer, by role: the loop-carried vector created by vec![default; ..] (or carried over from the previous loop)
+        cands = [v for ph, v in loop_phis(p) if isinstance(v, tuple) and v and v[0] == "with" and isinstance(v[2], tuple) and v[2][0] == "idx"
+                 and "from_elem" in repr(ph)]
+        sv = cands[0] if len(cands) == 1 else None
         if sv is None or sv[0] != "with":
             continue
         ix = sv[2][1]
